@@ -10,9 +10,11 @@
 //! Oracle (property text): Err | Invalid | (Valid/Trusted AND canonical report — manifest content, signature
 //! information, validation codes — exactly the seed's). A panic is neither.
 //!
-//! Mutants caught (tools/mutant_run.sh B ... C02 quick):
-//!   /verif/mutants/C02-skip-assertion-hash.diff
-//!   /verif/mutants/C02-ingredient-hash-mismatch-accepted.diff
+//! Mutants caught (quick tier; "caught" = NEW violation keys besides the update-mp4 finding of the unchanged tree):
+//!   /verif/mutants/C02-skip-assertion-hash.diff (verify_internal skips the hashed-URI comparison for c2pa.actions*):
+//!       60 -> 506 violations, new keys `changed-but-accepted <every seed> flip at=c2pa.actions.v2/cbor`
+//!   /verif/mutants/C02-ingredient-hash-mismatch-accepted.diff (ingredient manifest hash mismatch only informational):
+//!       60 -> 2000+ violations, new keys `changed-but-accepted chain2/detached flip at=c2pa.signature/cbor`, `... swap-boxes ...`, `... dup-box ...`
 
 use std::{
     collections::hash_map::DefaultHasher,
@@ -232,6 +234,16 @@ fn structure_edits(seed: &Seed) -> Vec<Edit> {
             r.extend_from_slice(&body);
             out.push(whole("swap-boxes", raw(b.start, n.end, r), format!("jumbf swap box={i} with next sibling")));
         }
+        // label: a two-byte UTF-8 character at the start of the label / of its last dot-separated component
+        // (a single-byte edit can never produce valid multi-byte UTF-8, a hostile writer can)
+        if let Some((ls, le)) = b.label_range {
+            let last = s[ls..le].iter().rposition(|c| *c == b'.').map(|d| ls + d + 1).unwrap_or(ls);
+            for (what, p) in [("first", ls), ("last-component", last)] {
+                if p + 2 <= le && !(what == "last-component" && last == ls) {
+                    out.push(whole("label-utf8", raw(p, p + 2, vec![0xC3, 0xA9]), format!("jumbf label box={i} two-byte utf8 char at {what}")));
+                }
+            }
+        }
         // label bytes
         if let Some((ls, le)) = b.label_range {
             for p in ls..le {
@@ -323,7 +335,8 @@ pub fn judge(run: &Run, seed: &Seed, e: &Edit, boxes: &Option<Vec<JBox>>, base: 
     run.eval();
     let class = obs.class();
     // the case stores the edit compactly; whole-store structure edits are stored as the diff region only
-    let case = json!({"seed": seed.id, "edit": e.to_json()});
+    // the exact seed bytes are recorded: labels, hashes and (for compressed stores) the byte layout differ between signings
+    let case = json!({"seed": seed.id, "edit": e.to_json(), "bytes_hex": kit::ev::hex(&seed.bytes), "asset_hex": seed.asset.as_ref().map(|a| kit::ev::hex(a))});
     if verbose {
         println!("  seed={} edit kind={} -> {}", seed.id, e.kind, class);
     }
@@ -344,17 +357,20 @@ pub fn judge(run: &Run, seed: &Seed, e: &Edit, boxes: &Option<Vec<JBox>>, base: 
             run.nontrivial(format!("{}:{:x}", seed.id, h.finish()));
             if *canon != seed.canon {
                 if verbose && std::env::var("VERIF_DEBUG").is_ok() {
-                    let _ = std::fs::write("/tmp/out-B/canon-seed.json", &seed.canon);
-                    let _ = std::fs::write("/tmp/out-B/canon-mutant.json", canon);
+                    let _ = std::fs::write(kit::ev::out_root().join("debug-canon-seed.json"), &seed.canon);
+                    let _ = std::fs::write(kit::ev::out_root().join("debug-canon-mutant.json"), canon);
                 }
                 let first = tamper::first_diff(&seed.bytes, &m);
+                if std::env::var("VERIF_LIST_VIOLATIONS").is_ok() {
+                    eprintln!("VIOL {} {}", seed.id, e.sym);
+                }
                 let at = region_of(seed, boxes, base, first);
                 run.violation(
                     format!("changed-but-accepted {shape} {} at={at}", e.kind),
                     format!(
-                        "seed {}: {} (first differing store byte {first}, in {at}) is read as {state} but the report differs from the seed's: {}",
+                        "seed {}: `{}` (first differing store byte {first}, in {at}) is read as {state} but the report differs from the seed's: {}",
                         seed.id,
-                        e.kind,
+                        e.sym,
                         diff_hint(&seed.canon, canon)
                     ),
                     case,
@@ -397,6 +413,18 @@ pub fn run(run: &Run, replay: Option<&Value>) {
     if let Some(c) = replay {
         let id = c["seed"].as_str().unwrap_or("");
         let seed = seeds.iter().find(|s| s.id == id).unwrap_or_else(|| kit::ev::machinery(format!("replay: unknown seed {id}")));
+        // re-create the seed from the recorded bytes when the case carries them (exact replay)
+        let recorded;
+        let seed = match c["bytes_hex"].as_str() {
+            Some(h) => {
+                recorded = finish_mime(&seed.id, &seed.spec.mime, kit::ev::unhex(h), c["asset_hex"].as_str().map(kit::ev::unhex), seed.chain, seed.quick);
+                &recorded
+            }
+            None => seed,
+        };
+        if std::env::var("VERIF_DEBUG").is_ok() {
+            std::panic::set_hook(Box::new(|i| eprintln!("panic: {i}\n{}", std::backtrace::Backtrace::force_capture())));
+        }
         let sym = c["edit"].as_str().unwrap_or("");
         let mut all = byte_edits(seed, false).0;
         all.extend(byte_edits(seed, true).0);
@@ -418,6 +446,9 @@ pub fn run(run: &Run, replay: Option<&Value>) {
     }
     let mut per_seed = vec![];
     for s in &seeds {
+        if std::env::var("VERIF_ONLY_SEED").map(|o| o != s.id).unwrap_or(false) {
+            continue;
+        }
         let (bx, base) = store_boxes(s);
         let (mut ed, what) = byte_edits(s, run.tier.is_thorough());
         if ed.is_empty() && s.asset.is_none() {
